@@ -14,6 +14,7 @@ package main
 // against the real proxy and projects what happened to abstract observations.
 
 import (
+	"sync/atomic"
 	"bufio"
 	"encoding/json"
 	"fmt"
@@ -131,6 +132,9 @@ func TestVPDriver(t *testing.T) {
 	env.out = bufio.NewWriterSize(of, 1<<20)
 	defer env.out.Flush()
 	d(t, env)
+	if vpMon != nil {
+		vpMon.write("", map[string]interface{}{"kind": "summary", "family": fam, "responsesWithProxyCookies": vpMon.n, "requests": atomic.LoadInt64(&vpRidSeq)})
+	}
 }
 
 // parallel runs f over all cases on GOMAXPROCS workers; each worker gets its own rng.
